@@ -2470,6 +2470,16 @@ class Trimesh(Geometry3D):
                 matrix,
             )[0]
 
+        if has_rotation:
+            # normals can only be carried along by a similarity transform
+            # (rotation, mirror, uniform scale): for anything else `M @ n`
+            # is not the normal of the transformed face, so recompute them
+            gram = np.dot(matrix[:3, :3].T, matrix[:3, :3])
+            scale = gram.diagonal().mean()
+            if not util.allclose(gram, np.eye(3) * scale, atol=1e-8 * max(scale, 1.0)):
+                self._cache.delete("face_normals")
+                self._cache.delete("vertex_normals")
+
         # preserve face normals if we have them stored
         if has_rotation and "face_normals" in self._cache:
             # transform face normals by rotation component
